@@ -374,6 +374,11 @@ TARGETS = [
     ("qutip/solver/multitrajresult.py", "MultiTrajResult", "__init__", []),
     ("qutip/solver/multitrajresult.py", "MultiTrajResult", "__add__", []),
     ("qutip/solver/multitrajresult.py", "_TrajectorySum", "merge", []),
+    # helpers that take a caller's dictionary or list and hand something derived from it on
+    ("qutip/solver/solver_base.py", None, "_solver_deprecation", ["kwargs"]),
+    ("qutip/solver/parallel.py", None, "_get_map", []),
+    ("qutip/core/environment.py", "ExponentialBosonicEnvironment", "__init__", []),
+    ("qutip/core/environment.py", "ExponentialFermionicEnvironment", "__init__", []),
 ]
 
 
